@@ -848,6 +848,26 @@ func (v *FnVC) evalCall(e *ECall, env *Env) Term {
 		c := v.evalTerm(e.Args[0], env)
 		k := v.regKey("CH:len", "(Array Int Int)")
 		return intT(fmt.Sprintf("(select %s %s)", v.heapGet(env.st, k), c.S))
+	case "cur": // cur(x): the current value of the (re-assigned) parameter or local x at this program point
+		id, ok := e.Args[0].(*EIdent)
+		if !ok {
+			v.fail("cur() needs a variable name")
+		}
+		if env.lookupAt != nil {
+			if t, ok := env.lookupAt(id.Name, env.st); ok {
+				return t
+			}
+		}
+		if env.lookup != nil {
+			if t, ok := env.lookup(id.Name); ok {
+				return t
+			}
+		}
+		return v.evalIdent(id.Name, env)
+	case "chanclosed": // chanclosed(c): close(c) has been executed
+		c := v.evalTerm(e.Args[0], env)
+		k := v.regKey("CH:closed", "(Array Int Bool)")
+		return boolT(fmt.Sprintf("(select %s %s)", v.heapGet(env.st, k), c.S))
 	case "chanFired":
 		c := v.evalTerm(e.Args[0], env)
 		v.S.declFun("chan_fired", "(Int) Bool")
